@@ -13,6 +13,7 @@ from vf.runner import Ob
 from vf.sched import Sched
 
 LEVEL = "other"
+TECHNIQUE = ('symx: symbolic schedules of concurrent real create / open / first-append from each initial state + symbolic interruption index of a creation; concrete replay')
 EXPLANATION = (
     "Bounded symbolic execution (symx/z3) of concurrent real create / open / first-append calls under a baton "
     "scheduler (all interleavings at shared-object granularity within the pre-emption bound) from each initial "
